@@ -1,18 +1,20 @@
 (** C36 — the correspondence runner over both halves of the model: Model/Web.v (formatting, escapers, tokenizer) and
     Model/WebResp.v (response classes; evaluated with net/http's signature table as generated from $GOROOT). *)
 From Coq Require Import String.
-From ZV Require Import Lib.Base Model.Web Model.WebResp Model.WebUrl Generated.WebRoutes.
+From ZV Require Import Lib.Base Model.Web Model.WebResp Model.WebUrl Model.WebFuncs Generated.WebRoutes.
 Open Scope N_scope.
 
 Inductive c36xcase :=
 | COld (c : c36case)
 | CNew (c : c36rcase)
-| CUrl (s : bytes) (rejected : bool).     (* html/template's urlFilter on a plain string at the start of an href: replaced by #ZgotmplZ? *)
+| CUrl (s : bytes) (rejected : bool)      (* html/template's urlFilter on a plain string at the start of an href: replaced by #ZgotmplZ? *)
+| CFunc (name : string) (args : list fval) (obs : option fval).   (* a Funcmap entry called through reflection; None = it panicked *)
 
 Definition c36x_ok (c : c36xcase) : bool :=
   match c with
   | COld c => c36_ok c
   | CNew c => c36r_ok sniff_sigs c
   | CUrl s rejected => Bool.eqb (negb (is_safe_url s)) rejected
+  | CFunc name args obs => c36f_ok name args obs
   end.
 Definition c36x_mismatches (cs : list c36xcase) : list N := bad_indexes c36x_ok cs.
